@@ -173,7 +173,7 @@ func (g *SynGrammar) hasCycle() bool {
 
 // ---------------------------------------------------------------------------------------
 
-var c06Opts = synGenOpts{MaxNT: 4, MaxT: 4, MaxAlts: 3, MaxBody: 3, PEmpty: 0.15, PLit: 0.3, Reduced: true, Actions: true, POptRun: 0.3}
+var c06Opts = synGenOpts{MaxNT: 4, MaxT: 4, MaxAlts: 3, MaxBody: 3, PEmpty: 0.15, PLit: 0.3, Reduced: true, Actions: true, POptRun: 0.3, PSplit: 0.15}
 
 func checkC06(c *Ctx) {
 	c.Level = "model_checking"
@@ -244,7 +244,7 @@ func checkC06(c *Ctx) {
 	c.errMsgLeg()
 }
 
-var c03Opts = synGenOpts{MaxNT: 4, MaxT: 4, MaxAlts: 3, MaxBody: 3, PEmpty: 0.2, PLit: 0.3, Actions: true, POptRun: 0.3}
+var c03Opts = synGenOpts{MaxNT: 4, MaxT: 4, MaxAlts: 3, MaxBody: 3, PEmpty: 0.2, PLit: 0.3, Actions: true, POptRun: 0.3, PSplit: 0.15}
 
 func checkC03(c *Ctx) {
 	c.Level = "model_checking"
@@ -355,7 +355,7 @@ func checkC03(c *Ctx) {
 	}
 }
 
-var c07Opts = synGenOpts{MaxNT: 3, MaxT: 3, MaxAlts: 3, MaxBody: 3, PEmpty: 0.1, PLit: 0.3, ErrorAlts: true, Actions: true}
+var c07Opts = synGenOpts{MaxNT: 3, MaxT: 3, MaxAlts: 3, MaxBody: 3, PEmpty: 0.1, PLit: 0.3, ErrorAlts: true, Actions: true, PSplit: 0.15}
 
 func checkC07(c *Ctx) {
 	c.Level = "model_checking"
@@ -387,7 +387,9 @@ func checkC07(c *Ctx) {
 		for i := 0; i < min(bs, total-done); i++ {
 			gs = append(gs, genSynGrammar(rng, o))
 		}
-		b := c.buildSynBatch(fmt.Sprintf("c07_%d", done), gs, [][]string{nil})
+		// every third grammar is generated with compressed tables: the recovery flags travel
+		// through their encoding too
+		b := c.buildSynBatch(fmt.Sprintf("c07_%d", done), gs, [][]string{nil, {"-zip"}, nil})
 		var cases []*SynCase
 		for _, cs := range b.built() {
 			if cs.Reported != -1 || cs.pairingProblem() != "" || cs.G.errTerm() < 0 {
